@@ -36,7 +36,8 @@ Inductive action :=
 | AArrive | APass                      (* barrier *)
 | AMetaBegin | AMetaEnd | ASkipMeta    (* metadata write begins (file truncated) / ends; other ranks skip the if *)
 | AReturn
-| AFail.                               (* the storage operation in progress raises *)
+| AFail                                (* the storage operation in progress raises *)
+| ATimeout.                            (* a rank blocked in a barrier gives up: the collective raises (process-group timeout) *)
 
 Definition set_pc (x : rk) (p : nat) : rk :=
   {| pc := p; waiting := false; wn := wn x; wb := wb x; wf := wf x; mw := false; st := st x |}.
@@ -82,6 +83,9 @@ Definition act (prog : list stmt) (g : gstate) (r : nat) (a : action) : option g
         put {| pc := pc x; waiting := waiting x; wn := wn x; wb := wb x; wf := wf x; mw := mw x; st := RReturned |} (meta g)
     | AFail, Some s =>
         if (stmt_eqb s SComplete && (wf x <? wb x)) || (is_meta s && mw x)
+        then put {| pc := pc x; waiting := waiting x; wn := wn x; wb := wb x; wf := wf x; mw := mw x; st := RRaised |} (meta g) else None
+    | ATimeout, Some SBarrier =>
+        if waiting x
         then put {| pc := pc x; waiting := waiting x; wn := wn x; wb := wb x; wf := wf x; mw := mw x; st := RRaised |} (meta g) else None
     | _, _ => None
     end
@@ -145,7 +149,7 @@ Definition obs_meta (m : mstate) : val := match m with MAbsent => VZ 0%Z | MPart
 Definition action_of_code (z : Z) : action :=
   if (z =? 0)%Z then AWBegin else if (z =? 1)%Z then AWEnd else if (z =? 2)%Z then AAdvance else if (z =? 3)%Z then AArrive
   else if (z =? 4)%Z then APass else if (z =? 5)%Z then AMetaBegin else if (z =? 6)%Z then AMetaEnd else if (z =? 7)%Z then ASkipMeta
-  else if (z =? 8)%Z then AReturn else AFail.
+  else if (z =? 8)%Z then AReturn else if (z =? 10)%Z then ATimeout else AFail.
 
 (* replay of an observed trace: for every observed (rank, action) was it enabled in the model?  plus the end state *)
 Fixpoint accepts (prog : list stmt) (g : gstate) (evs : list (Z * Z)) : list Z * gstate :=
